@@ -327,9 +327,58 @@ def pipeline_compat(ctx):
         ctx.count('output_pairs_in_known_class_' + k, v)
 
 
+def _exc_worker(args):
+    wants, gots = args
+    import doctest as std
+    from xdoctest import checker, directive
+    oc = std.OutputChecker()
+
+    def std_ok(want_msg, got_msg, fl):
+        if oc.check_output(want_msg, got_msg, fl):
+            return True
+        if fl & std.IGNORE_EXCEPTION_DETAIL:
+            return oc.check_output(std._strip_exception_details(want_msg), std._strip_exception_details(got_msg), fl)
+        return False
+    bad, n = [], 0
+    for fl, st in ((0, {}), (std.ELLIPSIS, {}), (std.IGNORE_EXCEPTION_DETAIL, {'IGNORE_EXCEPTION_DETAIL': True}),
+                   (std.IGNORE_EXCEPTION_DETAIL | std.ELLIPSIS, {'IGNORE_EXCEPTION_DETAIL': True})):
+        rs = directive.RuntimeState(st)
+        for w in wants:
+            for g in gots:
+                n += 1
+                if std_ok(w + '\n', g + '\n', fl):
+                    try:
+                        xv = checker.check_exception(g + '\n', 'Traceback (most recent call last):\n' + w + '\n', rs)
+                    except Exception as e:
+                        xv = 'raised %s' % type(e).__name__
+                    if xv is not True and len(bad) < 5:
+                        bad.append((w, g, fl, repr(xv)))
+    return n, bad
+
+
+def exception_compat(ctx):
+    """expected tracebacks: whenever the standard module accepts the final 'Type: message' line of a want for the raised exception
+    (exactly, with ELLIPSIS, or by type alone under IGNORE_EXCEPTION_DETAIL), checker.check_exception does"""
+    import itertools as it
+    toks = ['ValueError', 'pkg.mod.Err', 'Err', ': ', ':', 'msg', ' ', '...', 'a', '.', '\n  more'] + ([] if ctx.tier == 'quick' else ['KeyError', "'", '1', '('])
+    S = sorted({''.join(t) for n in range(1, 4) for t in it.product(toks, repeat=n)})
+    S = [s for s in S if s[0].isalpha()]
+    jobs = [(S[i:i + 30], S) for i in range(0, len(S), 30)]
+    total = 0
+    for n, bad in common.pmap(_exc_worker, jobs):
+        total += n
+        for w, g, fl, xv in bad:
+            if len([v for v in ctx.violations if v['kind'] == 'exception-incompatible']) < 5:
+                ctx.violation('exception-incompatible', {'what': 'the standard module accepts the expected exception line %r for the raised %r (flags %d), checker.check_exception gives %s' % (w, g, fl, xv),
+                              'want_line': w, 'got_line': g, 'std_flags': fl, 'theorem_or_correspondence': 'C20 on checker.check_exception (standard exception matching as oracle)'}, True)
+    ctx.evaluations += total
+    ctx.count('exception_lines_x_flags', total)
+
+
 def run(ctx):
     ellipsis_compat(ctx)
     pipeline_compat(ctx)
+    exception_compat(ctx)
     rng = ctx.rng('std')
     docs = [gen_doctest(rng) for _ in range(2500 if ctx.tier == 'quick' else 40000)]
     chunks = [docs[i:i + 100] for i in range(0, len(docs), 100)]
@@ -380,6 +429,13 @@ def run(ctx):
 
 def replay(path):
     d = json.load(open(path))
+    if d.get('kind') == 'exception-incompatible':
+        n, bad = _exc_worker(([d['want_line']], [d['got_line']]))
+        print('want line %r, raised %r: %s' % (d['want_line'], d['got_line'], bad or 'accepted by both'))
+        if bad:
+            print('VIOLATION property=C20 replay=%s' % path)
+            return 1
+        return 0
     if d.get('kind') == 'output-incompatible':
         import doctest as std
         from xdoctest import checker, directive
